@@ -208,6 +208,10 @@ def topo_family(tier):
         # hosts listed in an order unrelated to their addresses, a public subnet with two hosts
         ("chain3_shuffled", 4, [(0, 1), (1, 2), (2, 3)], [3], 2, False),
         ("two_public_shuffled", 4, [(0, 1), (0, 2), (1, 3)], [2, 3], 2, True),
+        # a USER exploit listed before a ROOT exploit of the same service / OS; fractional values
+        ("pub_only_both", 2, [(0, 1)], [1], 2, "both"),
+        ("chain2_both", 3, [(0, 1), (1, 2)], [1, 2], 1, "both"),
+        ("two_entries_far", 5, [(0, 1), (0, 2), (1, 3), (2, 4)], [3, 4], 1, True),
     ]
     if tier == "thorough":
         import itertools
@@ -238,9 +242,11 @@ def topo_family(tier):
 
 def family_spec(name, n, edges, sens, per, direct_root):
     hosts = {}
+    frac = name.endswith("_both") or name.endswith("_far")      # fractional sensitive / discovery values
     for s in range(1, n):
         for h in range(per):
-            hosts[(s, h)] = corpus.H("linux", ["ssh"], ["tomcat"], value=1 if (s + h) % 2 else 0, dvalue=1)
+            hosts[(s, h)] = corpus.H("linux", ["ssh"], ["tomcat"], value=1 if (s + h) % 2 else 0,
+                                     dvalue=0 if name.endswith("_both") else 0.75 if frac else 1)
     if name.endswith("_shuffled"):
         items = list(hosts.items())
         items = items[0:1] + items[2::2] + items[1::2][0:] if len(items) > 2 else items
@@ -253,10 +259,12 @@ def family_spec(name, n, edges, sens, per, direct_root):
                 fw[(a, b)] = ["ssh"]
     return dict(name="c20_" + name, subnets=[per] * (n - 1), topology=t, os=["linux"], services=["ssh"],
                 processes=["tomcat"], hosts=hosts,
-                exploits={"e_ssh": corpus.E("ssh", None, 1.0, 1, corpus.R if direct_root else corpus.U)},
+                exploits=({"e_ssh_user": corpus.E("ssh", None, 1.0, 1, corpus.U),
+                           "e_ssh_root": corpus.E("ssh", None, 1.0, 1, corpus.R)} if direct_root == "both" else
+                          {"e_ssh": corpus.E("ssh", None, 1.0, 1, corpus.R if direct_root else corpus.U)}),
                 privescs={"pe_tomcat": corpus.P("tomcat", "linux", 1.0, 1, corpus.R)},
-                fw=fw, sens={(s, 0): 100 for s in sens}, scan_costs=(1, 1, 1, 1), step_limit=None, bounds=None,
-                extra=[])
+                fw=fw, sens={(s, 0): ([10.5, 7.25][i % 2] if frac else 100) for i, s in enumerate(sens)},
+                scan_costs=(1, 1, 1, 1), step_limit=None, bounds=None, extra=[])
 
 
 def useful_explore(cs, workdir, timeout=1800):
